@@ -485,3 +485,7 @@ def run(ctx, shard):
                 l = (r @ a) @ b
                 rr = r @ (a @ b)
                 ctx.check(np.array_equal(l.F2, rr.F2), 'matmul/associative', 'PauliOperator product not associative', {'r': r.F2, 'a': a.F2, 'b': b.F2})
+
+
+# thorough tier: every random shard is run this many times with independent random streams (see vmon/runner.py get_shards)
+THOROUGH_REPEAT = 4
